@@ -29,3 +29,22 @@ V('C05', 'b-fs-refactor', 'frame.py', 'Frame._update_fs',
   'self.fs = np.linspace(self.fmax, self.fmax - self.fchans * self.df, self.fchans, endpoint=False)\n        self.fmin = self.fs[-1]\n        self.fs = self.fs[::-1]',
   'self.fmin = self.fmax - (self.fchans - 1) * self.df\n        self.fs = self.fmin + np.arange(self.fchans) * self.df', kind='benign')
 V('C05', 'b-invert-if', 'frame.py', 'Frame._update_fs', 'if self.ascending:', 'if not not self.ascending:', kind='benign')
+
+# ------------------------------------------------------------------ C20
+BK = 'voltage/backend.py'
+V('C20', 'float-total', BK, 'RawVoltageBackend.record', 'self.num_blocks * self.samples_per_block * self.num_branches', 'int(self.obs_length / self.tbin) * self.num_branches')
+V('C20', 'bps-no-div8', BK, 'RawVoltageBackend.__init__', 'self.bytes_per_sample = 2 * self.num_pols * self.num_bits // 8', 'self.bytes_per_sample = 2 * self.num_pols * self.num_bits // 4')
+V('C20', 'spb-no-antennas', BK, 'RawVoltageBackend.__init__', 'self.block_size // (self.num_antennas * self.num_chans * self.bytes_per_sample)', 'self.block_size // (self.num_chans * self.bytes_per_sample)')
+V('C20', 'tbin-inverted', BK, 'RawVoltageBackend.__init__', 'self.tbin = self.num_branches / self.sample_rate', 'self.tbin = self.sample_rate / self.num_branches')
+V('C20', 'obslen-minus1', BK, 'RawVoltageBackend.record', 'self.obs_length = self.num_blocks * self.time_per_block', 'self.obs_length = (self.num_blocks - 1) * self.time_per_block')
+V('C20', 'helper-diverges', BK, 'get_total_obs_num_samples', 'bytes_per_sample = 2 * num_pols * num_bits / 8', 'bytes_per_sample = num_pols * num_bits / 8')
+V('C20', 'blocksize-helper', BK, 'get_block_size', 'T = tchans_per_block * fftlength * int_factor', 'T = tchans_per_block * fftlength')
+V('C20', 'numblocks-no-pols', BK, 'RawVoltageBackend.get_num_blocks', ' * self.bytes_per_sample / self.block_size', ' * self.num_bytes / self.block_size')
+V('C20', 'pktstop-blocks', BK, 'RawVoltageBackend._header_populate_configuration', 'self.num_blocks * self.samples_per_block', 'self.num_blocks * self.samples_per_block - 1')
+V('C20', 'scanlen-tpb', BK, 'RawVoltageBackend._header_populate_configuration', "header_dict['SCANLEN'] = self.obs_length", "header_dict['SCANLEN'] = self.time_per_block")
+V('C20', 'unitdrift-no-int', 'voltage/level_utils.py', 'get_unit_drift_rate', 'raw_voltage_backend.tbin * fftlength * int_factor', 'raw_voltage_backend.tbin * fftlength')
+V('C20', 'mode-swap', BK, 'RawVoltageBackend.record', 'self.num_blocks = self.get_num_blocks(obs_length)', 'self.num_blocks = self.get_num_blocks(obs_length) + 1')
+V('C20', 'drop-assert', BK, 'RawVoltageBackend.__init__', 'assert self.block_size % int(self.num_antennas * self.num_chans * self.num_taps * self.bytes_per_sample) == 0', 'pass')
+V('C20', 'b-commute', BK, 'RawVoltageBackend.record', 'self.num_blocks * self.samples_per_block * self.num_branches', 'self.num_branches * self.samples_per_block * self.num_blocks', kind='benign')
+V('C20', 'b-tbin-temp', BK, 'RawVoltageBackend.__init__', 'self.tbin = self.num_branches / self.sample_rate', 'nbr = self.num_branches\n    self.tbin = nbr * (1 / self.sample_rate)', kind='benign')
+V('C20', 'b-numblocks-tpb', BK, 'RawVoltageBackend.get_num_blocks', 'return int(obs_length * abs(self.chan_bw) * self.num_antennas * self.num_chans * self.bytes_per_sample / self.block_size)', 'return int(obs_length / (self.tbin * self.block_size / (self.num_antennas * self.num_chans * self.bytes_per_sample)))', kind='benign')
